@@ -18,7 +18,7 @@ TECHNIQUE = 'exhaustive window/slice/index enumeration per generated file agains
 RULE = ('files from vlib.model.gen_file (bias: many segments, no-data/unlisted segments, 1-4 chunks, lengths 0-5) incl. truncated copies; '
         'non-trivial = channel whose values span >=2 chunks or segments; distinct = per-channel tuple of (segment, chunk length) pieces + type')
 ASSUMPTIONS = ['read_data is only specified for offset >= 0 and length >= 0 or None']
-REQUIRED = ['long_files', 'windows', 'slices', 'indices', 'windows_crossing_boundary', 'index_errors_checked', 'step0_checked',
+REQUIRED = ['slices_after_index', 'short_middle_files', 'long_files', 'windows', 'slices', 'indices', 'windows_crossing_boundary', 'index_errors_checked', 'step0_checked',
             'contract:channel._read_channel_data.len', 'truncated_files']
 N = {'quick': 640, 'thorough': 20000}
 STEPS = [None, 1, -1, 2, -2, 3, -3, 0]
@@ -29,6 +29,8 @@ def gen_cases(tier, seed):
         yield {'s': seed * 1000003 + i, 'cut': i % 4 == 3, 'raw_ts': i % 2 == 0}
     for i in range(N[tier] // 40):
         yield {'s': seed * 1000003 + i, 'cut': False, 'raw_ts': False, 'long': True}
+    for i in range(N[tier] // 8):
+        yield {'s': seed * 1000003 + i, 'cut': False, 'raw_ts': i % 2 == 0, 'short_middle': True}
 
 
 def shard_setup(ctx):
@@ -56,6 +58,10 @@ def build(case):
         from checks.c05 import long_file
         segs = long_file(rng)
         return segs, M.encode_file(segs)[0], None, rng
+    if case.get('short_middle'):
+        from checks.c05 import short_middle_file
+        segs, blob = short_middle_file(rng)
+        return segs, blob, None, rng
     segs = M.gen_file(rng, max_segs=8, max_chans=4, lens=(0, 1, 2, 3, 4, 5), chunks=(1, 2, 3, 4), p_nodata=0.25, p_newobj=0.5,
                       p_same=0.3, p_nometa=0.15, extra_objects=False, p_props=0.0, p_zero_chunks=0.15)
     blob, _, lay = M.encode_file(segs)
@@ -97,6 +103,8 @@ def run_case(case, ctx):
         ctx.count('truncated_files')
     if case.get('long'):
         ctx.count('long_files')
+    if case.get('short_middle'):
+        ctx.count('short_middle_files')
     ctx.sample({'case': case, 'cut': cut, 'segments': [s.describe() for s in segs][:3]}, limit=2)
     try:
         eager = TdmsFile.read(io.BytesIO(blob), raw_timestamps=case['raw_ts'])
@@ -203,6 +211,23 @@ def check_channel(ctx, case, segs, mode, ch, Rimg, R, n, bounds, tkind, rng, cut
                 pass
             except Exception as ex:
                 ctx.violation('index/%s/out-of-range-wrong-exception/%s' % (mode, util.exc_key(ex)), info(index=i))
+    # ---- slices and windows issued right after an integer index (the one-chunk cache is warm)
+    if n:
+        for _ in range(12 if n <= 24 else 30):
+            i = rng.randrange(n)
+            try:
+                ch[i]
+                for (a, b, c) in [(i, i + 2, None), (max(0, i - 3), i + 4, None), (i, None, None), (i + 1, max(0, i - 4), -1), (max(0, i - 1), i + 6, 2)]:
+                    ctx.count('slices_after_index')
+                    got = ch[a:b:c]
+                    if not C.img_equal(C.image(got), C.image_slice(Rimg, slice(a, b, c))):
+                        ctx.violation('slice-after-index/%s/mismatch/%s' % (mode, tkind), info(index=i, slice=(a, b, c), got=C.short(C.image(got)), want=C.short(C.image_slice(Rimg, slice(a, b, c)))))
+                o, l = max(0, i - 1), 3
+                got = ch.read_data(o, l)
+                if not C.img_equal(C.image(got), C.image_slice(Rimg, slice(o, o + l))):
+                    ctx.violation('window-after-index/%s/mismatch/%s' % (mode, tkind), info(index=i, offset=o, length=l))
+            except Exception as ex:
+                ctx.violation('after-index/%s/raises/%s' % (mode, util.exc_key(ex)), info(index=i, exc=util.exc_detail(ex)))
 
 
 def finalize(merged, tier):
